@@ -60,14 +60,13 @@ theorem find_nodup (ns : List Nbr) (hn : (ns.map Nbr.name).Nodup) (n : Nbr) (hm 
 /-! ### stage (b): parsing all neighbors -/
 
 theorem parseAll_fields (ns : List Nbr) (w : World) :
-    (parseAll w ns).nbrs = w.nbrs ∧ (parseAll w ns).peers = w.peers ∧ (parseAll w ns).procs = w.procs ∧
-    (parseAll w ns).dirty = w.dirty := by
+    (parseAll w ns).nbrs = w.nbrs ∧ (parseAll w ns).peers = w.peers ∧ (parseAll w ns).procs = w.procs := by
   induction ns generalizing w with
-  | nil => exact ⟨rfl, rfl, rfl, rfl⟩
+  | nil => exact ⟨rfl, rfl, rfl⟩
   | cons x t ih =>
     simp only [parseAll, List.foldl_cons] at ih ⊢
-    obtain ⟨h1, h2, h3, h4⟩ := ih (parseNbr w x)
-    exact ⟨h1, h2, h3, h4⟩
+    obtain ⟨h1, h2, h3⟩ := ih (parseNbr w x)
+    exact ⟨h1, h2, h3⟩
 
 theorem parseAll_ribs (ns : List Nbr) (w : World) (a : Nat) (hn : (ns.map Nbr.name).Nodup) :
     AList.lookup a (parseAll w ns).ribs
@@ -149,8 +148,8 @@ theorem values_names (d : AList Nat Nbr) (h : KeyName d) : (AList.values d).map 
 theorem removePeers_lookup (w : World) (a : Nat) (n : Nbr) (h : AList.lookup a w.nbrs = some n) :
     AList.lookup a (removePeers w).peers = AList.lookup a w.peers ∧
     AList.lookup a (removePeers w).ribs = AList.lookup a w.ribs ∧
-    (removePeers w).nbrs = w.nbrs ∧ (removePeers w).dirty = w.dirty ∧ (removePeers w).procs = w.procs := by
-  refine ⟨?_, ?_, rfl, rfl, rfl⟩
+    (removePeers w).nbrs = w.nbrs ∧ (removePeers w).procs = w.procs := by
+  refine ⟨?_, ?_, rfl, rfl⟩
   · simp only [removePeers]
     rw [lookup_filter_key (fun k => (AList.lookup k w.nbrs).isSome)]
     simp [h]
@@ -165,8 +164,7 @@ theorem removePeers_lookup (w : World) (a : Nat) (n : Nbr) (h : AList.lookup a w
     rw [this]; rfl
 
 theorem decideOne_fields (prevs : AList Nat Nbr) (w : World) (n : Nbr) :
-    (decideOne prevs w n).nbrs = w.nbrs ∧ (decideOne prevs w n).dirty = w.dirty ∧
-    (decideOne prevs w n).procs = w.procs := ⟨rfl, rfl, rfl⟩
+    (decideOne prevs w n).nbrs = w.nbrs ∧ (decideOne prevs w n).procs = w.procs := ⟨rfl, rfl⟩
 
 theorem decideOne_other (prevs : AList Nat Nbr) (w : World) (n : Nbr) (a : Nat) (h : n.name ≠ a) :
     AList.lookup a (decideOne prevs w n).peers = AList.lookup a w.peers ∧
@@ -191,10 +189,9 @@ theorem decideOne_self (prevs : AList Nat Nbr) (w : World) (n : Nbr) :
   split <;> simp_all
 
 theorem decideFold_fields (prevs : AList Nat Nbr) (l : List Nbr) (w : World) :
-    (l.foldl (decideOne prevs) w).nbrs = w.nbrs ∧ (l.foldl (decideOne prevs) w).dirty = w.dirty ∧
-    (l.foldl (decideOne prevs) w).procs = w.procs := by
+    (l.foldl (decideOne prevs) w).nbrs = w.nbrs ∧ (l.foldl (decideOne prevs) w).procs = w.procs := by
   induction l generalizing w with
-  | nil => exact ⟨rfl, rfl, rfl⟩
+  | nil => exact ⟨rfl, rfl⟩
   | cons x t ih => simp only [List.foldl_cons]; exact ih (decideOne prevs w x)
 
 theorem decideFold (prevs : AList Nat Nbr) (l : List Nbr) (w : World) (a : Nat) (hn : (l.map Nbr.name).Nodup) :
@@ -220,17 +217,18 @@ theorem decideFold (prevs : AList Nat Nbr) (l : List Nbr) (w : World) (a : Nat) 
 
 /-! ### `Reactor.reload()` on a valid configuration, seen from one neighbor name -/
 
-theorem reactorReload_ok (w : World) (c : Config) (hclean : w.dirty = false)
+theorem reactorReload_ok (w : World) (c : Config)
     (hnodup : (c.nbrs.map Nbr.name).Nodup) (n : Nbr) (hn : n ∈ c.nbrs) :
     (reactorReload w c none).2 = true ∧
     (AList.lookup n.name (reactorReload w c none).1.peers, AList.lookup n.name (reactorReload w c none).1.ribs)
       = decided w.nbrs n (AList.lookup n.name w.peers) (some (parseSess (AList.lookup n.name w.ribs) n)) ∧
-    AList.lookup n.name (reactorReload w c none).1.nbrs = some n ∧
-    (reactorReload w c none).1.dirty = false := by
-  obtain ⟨pf1, pf2, _, pf4⟩ := parseAll_fields c.nbrs w
+    AList.lookup n.name (reactorReload w c none).1.nbrs = some n := by
+  -- the world `_clear()` leaves: same RIBs and peers
+  let w0 : World := { w with procs := [], nbrs := [] }
+  obtain ⟨_, pf2, _⟩ := parseAll_fields c.nbrs w0
   have hcfg : cfgReload w c none
-      = ({ parseAll w c.nbrs with procs := c.procs, nbrs := toDict c.nbrs }, true) := by
-    simp [cfgReload, hclean]
+      = ({ parseAll w0 c.nbrs with procs := c.procs, nbrs := toDict c.nbrs }, true) := by
+    simp [cfgReload, clearStage, parseStage, w0]
   have hlk : AList.lookup n.name (toDict c.nbrs) = some n := toDict_lookup c.nbrs hnodup n hn
   obtain ⟨wf1, wf2⟩ := toDict_wf c.nbrs
   have hvals : ((AList.values (toDict c.nbrs)).map Nbr.name).Nodup := by
@@ -238,31 +236,30 @@ theorem reactorReload_ok (w : World) (c : Config) (hclean : w.dirty = false)
   have hmem : n ∈ AList.values (toDict c.nbrs) :=
     List.mem_map.2 ⟨(n.name, n), AList.mem_of_lookup hlk, rfl⟩
   -- the world after configuration.reload()
-  let w1 : World := { parseAll w c.nbrs with procs := c.procs, nbrs := toDict c.nbrs }
+  let w1 : World := { parseAll w0 c.nbrs with procs := c.procs, nbrs := toDict c.nbrs }
   have hw1n : AList.lookup n.name w1.nbrs = some n := hlk
-  obtain ⟨r1, r2, r3, r4, _⟩ := removePeers_lookup w1 n.name n hw1n
+  obtain ⟨r1, r2, r3, _⟩ := removePeers_lookup w1 n.name n hw1n
   have hres : reactorReload w c none
       = ((AList.values (removePeers w1).nbrs).foldl (decideOne w.nbrs) (removePeers w1), true) := by
     simp only [reactorReload, hcfg, if_true, w1]
   rw [hres]
-  obtain ⟨f1, f2, _⟩ := decideFold_fields w.nbrs (AList.values (removePeers w1).nbrs) (removePeers w1)
-  refine ⟨rfl, ?_, ?_, ?_⟩
+  obtain ⟨f1, _⟩ := decideFold_fields w.nbrs (AList.values (removePeers w1).nbrs) (removePeers w1)
+  refine ⟨rfl, ?_, ?_⟩
   · simp only
     rw [decideFold w.nbrs _ (removePeers w1) n.name (by rw [r3]; exact hvals)]
     rw [r3, find_nodup _ hvals n hmem]
     simp only
     rw [r1, r2]
     have hp : AList.lookup n.name w1.peers = AList.lookup n.name w.peers := by
-      show AList.lookup n.name (parseAll w c.nbrs).peers = _
+      show AList.lookup n.name (parseAll w0 c.nbrs).peers = _
       rw [pf2]
     have hr : AList.lookup n.name w1.ribs = some (parseSess (AList.lookup n.name w.ribs) n) := by
-      show AList.lookup n.name (parseAll w c.nbrs).ribs = _
-      rw [parseAll_ribs c.nbrs w n.name hnodup, find_nodup c.nbrs hnodup n hn]
+      show AList.lookup n.name (parseAll w0 c.nbrs).ribs = _
+      rw [parseAll_ribs c.nbrs w0 n.name hnodup, find_nodup c.nbrs hnodup n hn]
     rw [hp, hr]
   · simp only; rw [f1, r3]; exact hlk
-  · simp only; rw [f2, r4]; show (parseAll w c.nbrs).dirty = false; rw [pf4]; exact hclean
 
-/-! ### a reload that fails before anything changed -/
+/-! ### re-committing a section that is already live changes nothing -/
 
 /-- Neighbor section `n` is already live in `w` with exactly these routes: parsing it again
     changes nothing. -/
